@@ -772,6 +772,8 @@ func min(a, b int) int {
 
 func longLine(n int, b byte) []byte { return bytes.Repeat([]byte{b}, n) }
 
+var hugeLengths = 8
+
 func genNegative(c *Ctx, valid [][]byte) (stream []byte, tag string) {
 	pick := func() []byte {
 		if len(valid) == 0 {
@@ -817,7 +819,12 @@ func genNegative(c *Ctx, valid [][]byte) (stream []byte, tag string) {
 		}
 		return s, "truncated"
 	case r < 62: // Content-Length games
-		cl := []string{"2147483648", "4294967295", "99999999999999999999", "9223372036854775807", "9223372036854775808", "-1", "+5", "5x", "0x10", "1e3", " 7 ", "", "007", "1048576", "1048577", "65536", "-99999999999999999999", "4294967296", "5, 6"}[c.Rng.Intn(19)]
+		cl := []string{"-1", "+5", "5x", "0x10", "1e3", " 7 ", "", "007", "1048576", "1048577", "65536", "5, 6", "16777217", "70000"}[c.Rng.Intn(14)]
+		if hugeLengths > 0 && c.Rng.Chance(12) {
+			// values a reader without a limit would try to allocate: only a handful per run
+			hugeLengths--
+			cl = []string{"2147483648", "4294967295", "99999999999999999999", "9223372036854775807", "9223372036854775808", "-99999999999999999999", "4294967296"}[c.Rng.Intn(7)]
+		}
 		// (values that the reader would really allocate stay ≤ 1 MiB + 1 here; the 100 MB probe is separate)
 		body := c.Rng.Bytes(c.Rng.Intn(12))
 		if c.Rng.Bool() {
